@@ -86,6 +86,11 @@ def event(op, path, can_error=True, path2=None):
         if kind == "kill":
             SIM.fired = {"kind": "kill", "at": k, "label": label}
             die(SIM.fired)
+        if kind == "corrupt":
+            if op in ("write", "tofile"):
+                return "corrupt"
+            SIM.fired = {"kind": "corrupt_ignored", "at": k, "label": label}
+            return None
         if kind == "torn":
             if op in ("write", "tofile"):
                 return "tear"
@@ -169,6 +174,13 @@ class SimFile:
         act = event(op, self._path)
         if act == "tear":
             self._torn_write(data)
+        if act == "corrupt":
+            self._f.flush()
+            p0 = self._f.tell()
+            n = self._f.write(data)
+            self._f.flush()
+            _flip_byte(self._path, p0, self._f.tell())
+            return n
         if self._binary() and SIM.extents is not None and SIM.active:
             p0 = self._f.tell()
             n = self._f.write(data)
@@ -196,7 +208,7 @@ class SimFile:
             act = event("tofile", self._path)
             self._f.flush()
             self._tofile_pos0 = self._f.tell()
-            self._tear = act == "tear"
+            self._tear = act
             return None
         return self._f.flush()
 
@@ -207,7 +219,9 @@ class SimFile:
             self._tofile_pos0 = None
             r = self._f.seek(pos, whence)
             note_extent(self._path, pos0, pos)
-            if self._tear:
+            if self._tear == "corrupt":
+                _flip_byte(self._path, pos0, pos)
+            elif self._tear == "tear":
                 f = SIM.fault
                 n = pos - pos0
                 p = _tear_len(f.get("tear"), n)
@@ -235,6 +249,24 @@ class SimFile:
                         g.truncate(fd_size)
                 raise
         return self._f.close()
+
+
+def _flip_byte(path, pos0, pos1):
+    """Silent corruption of a completed write: one stored byte differs from what was written."""
+    f = SIM.fault
+    n = pos1 - pos0
+    if n <= 0:
+        SIM.fired = {"kind": "corrupt_ignored", "at": f["at"], "label": SIM.events[-1]}
+        return
+    frac = 0.5 if f.get("tear") is None else float(f["tear"])
+    p = pos0 + min(n - 1, int(frac * n))
+    fd = os.open(path, os.O_RDWR)
+    try:
+        b = os.pread(fd, 1, p)
+        os.pwrite(fd, bytes([b[0] ^ 0x40]), p)
+    finally:
+        os.close(fd)
+    SIM.fired = {"kind": "corrupt", "at": f["at"], "label": SIM.events[-1], "byte": p}
 
 
 def _tear_len(tear, n):
